@@ -146,7 +146,7 @@ def run(rep: Report, prog: Program, tier: str) -> None:
                 rep.ok("C18-FRACTION", f"fraction_lost {cell}", sample=f"= {got}")
 
     # ---- C18-WIDTH
-    rep.rule("C18-WIDTH", "packed report fields fit their formats", min_instances=5)
+    rep.rule("C18-WIDTH", "packed report fields fit their formats", min_instances=4)
     cfg = receive_config(prog)
     ai = Absint(prog, cfg)
     captured: Dict[str, Any] = {}
@@ -179,7 +179,7 @@ def run(rep: Report, prog: Program, tier: str) -> None:
     need("packets_lost", -(1 << 23), (1 << 23) - 1, "24-bit signed, by clamp_packets_lost")
     need("highest_sequence", 0, U32, "32-bit, masked")
     need("jitter", None, U32, "32-bit, saturated")
-    need("dlsr", 0, None, "non-negative (upper bound: C18-DLSR)")
+    # dlsr: both bounds are decided by rule C18-DLSR (evaluation of the computing statement on a grid of delays)
     # lsr values are stored into self.__lsr by _handle_rtcp_packet: check the stored expression
     hrp = prog.func("rtcrtpreceiver.RTCRtpReceiver._handle_rtcp_packet")
     st_lsr = [n for n in walk_no_nested(hrp.node) if isinstance(n, ast.Assign) and unparse(n.targets[0]).startswith("self.__lsr[")]
@@ -198,12 +198,12 @@ def run(rep: Report, prog: Program, tier: str) -> None:
     snd = prog.func("rtcrtpsender.RTCRtpSender._run_rtcp")
     s_lsr = [n.value for n in walk_no_nested(snd.node) if isinstance(n, ast.Assign) and unparse(n.targets[0]) == "self.__lsr"]
 
-    def shape(e: ast.AST) -> Optional[tuple]:
+    def shape(e: ast.AST, m) -> Optional[tuple]:
         if isinstance(e, ast.BinOp) and isinstance(e.op, ast.BitAnd) and isinstance(e.left, ast.BinOp) and isinstance(e.left.op, ast.RShift):
-            return (prog.try_const(e.left.right, mod), prog.try_const(e.right, mod))
+            return (prog.try_const(e.left.right, m), prog.try_const(e.right, m))
         return None
 
-    shapes = [shape(v) for v in s_lsr] + [shape(n.value) for n in st_lsr]
+    shapes = [shape(v, snd.module) for v in s_lsr] + [shape(n.value, hrp.module) for n in st_lsr]
     if shapes and all(s_ == (16, U32) for s_ in shapes) and len(shapes) >= 2:
         rep.ok("C18-LSR", "sender and receiver: (ntp >> 16) & 0xFFFFFFFF", sample=str(shapes))
         rep.ok("C18-LSR", "same shift and mask constants on both sides", sample="16 / 0xFFFFFFFF")
@@ -212,30 +212,42 @@ def run(rep: Report, prog: Program, tier: str) -> None:
 
     # ---- C18-DLSR: the delay-since-last-SR computation, evaluated on a grid of delays
     rep.rule("C18-DLSR", "DLSR is 0 or the delay in 1/65536 s and always fits 32 bits", min_instances=10)
-    assigns = [n for n in walk_no_nested(run_rtcp.node) if isinstance(n, ast.Assign) and unparse(n.targets[0]) == "dlsr" and not isinstance(n.value, ast.Constant)]
+    # the statement `V = int(D * 65536)` (whatever V and D are called, in _run_rtcp or a helper of the receiver class)
+    dl_fn = None
+    assigns = []
+    for fi_ in prog.cls("rtcrtpreceiver.RTCRtpReceiver").methods.values():
+        for n in walk_no_nested(fi_.node):
+            if isinstance(n, ast.Assign) and isinstance(n.targets[0], ast.Name) and isinstance(n.value, ast.Call) and unparse(n.value.func) == "int" and n.value.args \
+                    and isinstance(n.value.args[0], ast.BinOp) and isinstance(n.value.args[0].op, ast.Mult) \
+                    and 65536 in (prog.try_const(n.value.args[0].left, fi_.module), prog.try_const(n.value.args[0].right, fi_.module)):
+                assigns.append(n)
+                dl_fn = fi_
     if len(assigns) != 1:
-        raise AnalysisError("_run_rtcp: computation of dlsr not found")
+        raise AnalysisError("computation of the delay since the last sender report (int(delay * 65536)) not found in RTCRtpReceiver")
+    mul = assigns[0].value.args[0]
+    dvar = next(unparse(x) for x in (mul.left, mul.right) if prog.try_const(x, dl_fn.module) != 65536)
+    vvar = assigns[0].targets[0].id
     parents = {}
-    for p in ast.walk(run_rtcp.node):
+    for p in ast.walk(dl_fn.node):
         for ch in ast.iter_child_nodes(p):
             parents[id(ch)] = p
     stmt = assigns[0]
-    while isinstance(parents.get(id(stmt)), ast.If) and any(isinstance(x, ast.Name) and x.id == "delay" for x in ast.walk(parents[id(stmt)].test)):
+    while isinstance(parents.get(id(stmt)), ast.If) and any(unparse(x) == dvar for x in ast.walk(parents[id(stmt)].test)):
         stmt = parents[id(stmt)]
     from engine.peval import Evaluator as _Ev
     for delay in (-1e9, -1.0, 0.0, 1e-9, 0.5, 1.0, 2.75, 65535.0, 65535.99998, 65536.0, 65536.5, 70000.0, 2.0e5, 1.0e12):
-        e5 = _Ev(prog, run_rtcp.module, run_rtcp.cls, {"delay": delay, "dlsr": 0})
+        e5 = _Ev(prog, dl_fn.module, dl_fn.cls, {dvar: delay, vvar: 0})
         try:
             e5.exec_stmt(stmt)
         except Exception as ex:
             raise AnalysisError(f"cannot evaluate the dlsr computation: {ex}")
-        got = e5.env["dlsr"]
+        got = e5.env[vvar]
         in_range = isinstance(got, int) and 0 <= got <= U32
         exact = got == int(delay * 65536) if 0 < delay < 65536 else True
         if in_range and exact:
             rep.ok("C18-DLSR", f"delay {delay!r} s", sample=f"dlsr {got}")
         else:
-            rep.fail(mk_finding(prog, PROP, "C18-DLSR", run_rtcp, stmt,
+            rep.fail(mk_finding(prog, PROP, "C18-DLSR", dl_fn, stmt,
                                 f"a last sender report {delay!r} s old gives dlsr = {got!r}" + ("" if in_range else ", which does not fit the 32-bit field: building the receiver report "
                                 "raises struct.error and the RTCP task dies") + ("" if exact else f"; expected {int(delay * 65536)}"), construct="dlsr range"))
 
